@@ -30,3 +30,5 @@ MUTANTS = [
     dict(name="base-class-imports-per-code", file="visit/exception_visitor.py", expect="R11.4",
          old='        context.add_import(f"{context.core_package_name}.exceptions", "ServerError")\n', new=""),
 ]
+MUTANTS.append(dict(name="cleanup-does-not-restore-registry", file='generator/client_generator.py', expect="R11.5", old='            if saved_registry is not None:\n                registry_path.write_bytes(saved_registry)\n', new=""))
+MUTANTS.append(dict(name="cleanup-does-not-save-registry", file='generator/client_generator.py', expect="R11.5", old='                if registry_path.is_file() and (core_dir == out_dir or out_dir in core_dir.parents):\n                    saved_registry = registry_path.read_bytes()\n', new=""))
